@@ -172,11 +172,12 @@ def run(ctx):
                         return
             o.undecided(f"patch loop `{txt(pl.iter)}` is not range(count)", hf, pl)
             return
-        cnt = rules.term_of(b["n"], sc)
+        cnt = rules.term_at(par, sc, b["n"], pl, keep=[ntop, i])
         n_, m_ = tm.sym(ntop), tm.parse(m_txt)
         mod = tm.atom_poly(("mod", n_, m_))
         want_guarded = tm.sub(m_, mod)
-        want_unguarded = [tm.atom_poly(("mod", tm.sub(m_, mod), m_)), tm.atom_poly(("mod", tm.neg(n_), m_))]
+        want_unguarded = [tm.atom_poly(("mod", tm.sub(m_, mod), m_)), tm.atom_poly(("mod", tm.neg(n_), m_)),
+                          tm.canon(tm.mk_ifexp(tm.mk_cmp("Eq", mod, tm.ZERO), tm.ZERO, tm.sub(m_, mod)))]
         # the guard may be an enclosing `if` or a preceding `if ...: continue` - both are path conditions of the patch loop
         facts = rules.known_facts(par, pl, upto=lp)
         if facts:
@@ -210,8 +211,10 @@ def run(ctx):
                 o.holds(hf, pl, "minimal count")
             elif cnt == want_guarded:
                 o.violated(hf, pl, f"without the divisibility guard {tm.show(cnt)} adds a whole extra motif's worth of stubs when the total is already divisible")
+            elif not tm.has_opaque(cnt) and tm.leaves(cnt) <= {ntop, i, "self._motif_sizes", "self"} | {l for l in tm.leaves(cnt) if l.endswith("()")}:
+                o.violated(hf, pl, f"adds {tm.show(cnt)} stubs unconditionally")
             else:
-                o.violated(hf, pl, f"adds {tm.show(cnt)} stubs unconditionally") if not tm.has_opaque(cnt) else o.undecided("patch count not understood", hf, pl)
+                o.undecided(f"patch count {tm.show(cnt)[:80]} not understood", hf, pl)
 
     with ctx.obligation("C05.4", "the only write to a joint degree is +1 on the topology's own column, stored back at the same row", floor=2) as o, \
             ctx.obligation("C05.6", "patched rows are stored back as tuples") as o6, \
